@@ -229,6 +229,12 @@ def check_length(repo, rep):
             ln = out.interp.call(out.interp.getattr(d, "__len__"), [], {})
             wr = [e for e in out.events if e[0] == "write"]
             ok = out.kind == "return" and isinstance(ln, R) and ln.same(A("n") + R.const(1)) and len(wr) == 1 and wr[0][1].same(A("n"))
+            arr_now = d.attrs.get("array")
+            if not ok and out.kind == "return" and not (isinstance(arr_now, Obj) and arr_now.cls == "ndarray"):
+                # the backing array was replaced by one this access-recording model does not follow (a new way of growing): the
+                # bounded histories of R4 run the repository's class itself and decide the behaviour
+                rep.undecided_item(f"C18-R3 append on a length-{n} array: the backing array is rebuilt in a way the access-recording model does not follow (decided by the R4 histories)")
+                continue
             if not ok:
                 rep.violation(rid, "append", f"append on a length-{n} array: length becomes {ln!r}, writes {[(repr(e[1])) for e in wr]} (expected length n+1, row n)")
             rep.instance(rid, f"append|n={n}", {"n": n, "len_after": repr(ln), "grew": any(e[0] == "grow" for e in out.events)})
@@ -246,6 +252,10 @@ def check_length(repo, rep):
                 wr = [e for e in out.events if e[0] == "write_slice"]
                 ok = out.kind == "return" and isinstance(ln, R) and ln.same(A("n") + R.const(k)) and len(wr) == 1 and \
                     isinstance(wr[0][1], R) and wr[0][1].same(A("n")) and wr[0][2].same(A("n") + R.const(k))
+                arr_now = d.attrs.get("array")
+                if not ok and out.kind == "return" and not (isinstance(arr_now, Obj) and arr_now.cls == "ndarray"):
+                    rep.undecided_item(f"C18-R3 append_multiple on a length-{n} array: the backing array is rebuilt in a way the access-recording model does not follow (decided by the R4 histories)")
+                    continue
                 if not ok:
                     rep.violation(rid, "append_multiple", f"append_multiple({k} rows) on a length-{n} array: length {ln!r}, writes {[(repr(e[1]), repr(e[2])) for e in wr]} (expected n+{k}, rows [n:n+{k}])")
                 rep.instance(rid, f"append_multiple|n={n}|k={k}")
